@@ -207,7 +207,7 @@ def run(ctx):
     for pi in range(nproj):  # WRAPPED
         try:
             cfg = CONFIGS[(pi * ctx.nshards + ctx.shard) % len(CONFIGS)]
-            size = rng.choice(["small", "medium", "medium", "large"])
+            size = rng.choice(["small", "medium", "medium", "large", "fixture"])
             ipt = rng.random() < 0.75
             sc = LogixScenario(rng, size=size, config=cfg, init_program_tags=ipt)
             res.count("uploads")
